@@ -902,7 +902,9 @@ impl RawAutomaton {
         let (transitions, markers) = RawAutomaton::filter_map_transitions(
             &transitions,
             |state| renaming.get(&state).copied(),
-            transitions.len() - self.final_states.len(),
+            // The initial state is kept even when it is final, so the number of remaining
+            // states is not necessarily `transitions.len() - self.final_states.len()`.
+            renaming.len(),
             0,
         );
         Self {
